@@ -152,36 +152,30 @@ def parse_docstring(doc):
 
 def bind_schema(sch, pat_params, n_thunks, name='?'):
     """Relate schema variables to the method's Pattern parameters.
-    Variables occurring in a premise are determined by the premise thunks.  The other variables are
-    Pattern parameters: by name if a parameter has that name, the rest positionally (alphabetical
-    order of the variables vs. order of the remaining parameters: `or_distr_r_rev(pat1, pat2, pat3)`
-    documents `(a \\/ c) /\\ (b \\/ c) -> (a /\\ b) \\/ c`).  -> dict var -> param name."""
+    A variable that has the NAME of a Pattern parameter is that parameter (also when a premise mentions it:
+    `_prop2_mp(p, q, r, qr_pf)` documents `q -> r |- (p -> q) -> (p -> r)`, the premise must then be about the
+    patterns passed).  The other variables occurring in a premise are determined by the premise thunks.  What is
+    left is related positionally (alphabetical order of the variables vs. order of the remaining parameters:
+    `or_distr_r_rev(pat1, pat2, pat3)` documents `(a \\/ c) /\\ (b \\/ c) -> (a /\\ b) \\/ c`).
+    -> (dict var -> param name, premise-determined variables)."""
     if len(sch['premises']) != n_thunks:
         raise SchemaMismatch(f'{name}: {len(sch["premises"])} premises in the docstring, '
                              f'{n_thunks} ProofThunk parameters')
-    prem_vars = []
+    prem_all = []
     for p in sch['premises']:
-        fvars(p, prem_vars)
-    allv = list(prem_vars)
+        fvars(p, prem_all)
+    allv = list(prem_all)
     for c in sch['conclusions']:
         fvars(c, allv)
-    free = [v for v in allv if v not in prem_vars]
-    binding = {}
-    rest_params = list(pat_params)
-    for v in free:
-        if v in rest_params:
-            binding[v] = v
-            rest_params.remove(v)
-    rest_vars = sorted(v for v in free if v not in binding)
+    binding = {v: v for v in allv if v in pat_params}
+    prem_vars = [v for v in prem_all if v not in binding]
+    rest_params = [p for p in pat_params if p not in binding.values()]
+    rest_vars = sorted(v for v in allv if v not in binding and v not in prem_vars)
     if len(rest_vars) != len(rest_params):
         raise SchemaMismatch(f'{name}: schema variables {rest_vars} cannot be related to Pattern '
                              f'parameters {rest_params}')
     for v, p in zip(rest_vars, rest_params):
         binding[v] = p
-    for p in pat_params:
-        if p in prem_vars and p not in binding.values():
-            # a Pattern parameter that is also fixed by a premise: keep the premise's reading
-            raise SchemaMismatch(f'{name}: parameter {p} also occurs in a premise')
     return binding, prem_vars
 
 
